@@ -28,7 +28,8 @@ func c03Count(q, t int) func(string) int {
 }
 
 func init() {
-	caseGens["C03"] = caseGen{count: c03Count(700, 12000), gen: c03Gen}
+	caseGens["C03"] = caseGen{count: func(tier string) int { return c03Count(700, 12000)(tier) + c03Count(110, 1500)(tier) },
+		gen: c03Gen}
 }
 
 type c03Pkt struct {
@@ -71,12 +72,38 @@ func c03Data(r *Rng, n int, wide bool) []int64 {
 	return v
 }
 
+// c03Case is one acquisition: layout, start-up sample, tick script.
+type c03Case struct {
+	groups      []*c03Group
+	nticks      int
+	f0          int64
+	perGroup    bool
+	mergeSeed   uint64
+	viaStartRun bool
+}
+
+// c03Opt steers the generator for the runs of a restart history (nil: an ordinary case).
+type c03Opt struct {
+	layout [][2]int // first, nchan of every group (nil: free)
+	ng     int      // number of groups when layout is nil (0: free)
+	tsMode bool
+	tickTs bool   // data packets of the ticks carry timestamps too (as real ones do)
+	base   uint32 // sequence numbers start above this
+}
+
 // c03Gen builds one case.
 func c03Gen(r *Rng, tier string, idx int) (string, func() string) {
 	if idx < len(c03Fixed) {
 		groups, nticks := c03Fixed[idx]()
-		return c03Emit(groups, nticks, 0, idx%2 == 1, uint64(idx), false)
+		return c03Emit(c03Case{groups: groups, nticks: nticks, perGroup: idx%2 == 1, mergeSeed: uint64(idx)})
 	}
+	if idx >= c03Count(700, 12000)(tier) {
+		return c03GenRestart(r, tier, idx-c03Count(700, 12000)(tier))
+	}
+	return c03Emit(c03GenOne(r, tier, nil))
+}
+
+func c03GenOne(r *Rng, tier string, opt *c03Opt) c03Case {
 	ng := r.Pick(1, 2, 2, 2, 3, 3, 4)
 	fpp := r.Pick(1, 1, 2, 2, 3, 4, 4, 5, 8, 16)
 	if r.Chance(15) {
@@ -87,6 +114,14 @@ func c03Gen(r *Rng, tier string, idx int) (string, func() string) {
 	hot := r.Chance(40)              // lag + loss together
 	viaStartRun := r.Chance(1)       // launch the loop through the real StartRun (50 ms ticks)
 	big := tier == "thorough" && r.Chance(10)
+	if opt != nil {
+		unequal, tsMode, viaStartRun = false, opt.tsMode, false
+		if opt.layout != nil {
+			ng = len(opt.layout)
+		} else if opt.ng > 0 {
+			ng = opt.ng
+		}
+	}
 
 	groups := make([]*c03Group, ng)
 	firstchan := r.Intn(3)
@@ -101,7 +136,13 @@ func c03Gen(r *Rng, tier string, idx int) (string, func() string) {
 			grp.fpp = r.Range(1, 6)
 		}
 		firstchan += grp.nchan + r.Pick(0, 0, 0, 1, 3)
+		if opt != nil && opt.layout != nil {
+			grp.first, grp.nchan = opt.layout[g][0], opt.layout[g][1]
+		}
 		groups[g] = grp
+	}
+	if opt != nil {
+		base = opt.base
 	}
 
 	// start-up sample: ns consecutive packets ending at L0
@@ -234,7 +275,7 @@ func c03Gen(r *Rng, tier string, idx int) (string, func() string) {
 				w = r.Bool()
 			}
 			grp.ticks[a.tick] = append(grp.ticks[a.tick], c03Pkt{sn: l0[g] + 1 + uint32(j), wide: w,
-				vals: c03Data(r, grp.nchan*grp.fpp, w)})
+				ts: opt != nil && opt.tickTs, vals: c03Data(r, grp.nchan*grp.fpp, w)})
 		}
 	}
 	f0 := int64(0)
@@ -245,11 +286,96 @@ func c03Gen(r *Rng, tier string, idx int) (string, func() string) {
 	perGroup := ng > 1 && r.Bool()
 	mergeSeed := r.U64()
 
-	return c03Emit(groups, nticks, f0, perGroup, mergeSeed, viaStartRun)
+	return c03Case{groups, nticks, f0, perGroup, mergeSeed, viaStartRun}
+}
+
+// c03GenRestart builds a restart history: run 1 (usually cut short while a group lags, so packets stay
+// queued), stop, then Sample/PrepareChannels/run 2 on the SAME source object, with the same layout or
+// with groups removed / added / reshaped.
+func c03GenRestart(r *Rng, tier string, k int) (string, func() string) {
+	var c1, c2 c03Case
+	if k == 0 {
+		// the minimal scenario: group 1 lags in the last tick of run 1, both groups restart
+		g1, n1 := c03Scenario([][]uint32{{3, 4}, {3, 4}}, [][][]uint32{{{5, 6}, {5}}, {{7, 8}, {}}})
+		g2, n2 := c03Scenario([][]uint32{{23, 24}, {25, 26}}, [][][]uint32{{{25, 26}, {27, 28}}, {{27}, {29}}})
+		for _, gs := range [][]*c03Group{g1, g2} {
+			for _, g := range gs {
+				for i := range g.sample {
+					g.sample[i].ts = true
+				}
+				for t := range g.ticks {
+					for i := range g.ticks[t] {
+						g.ticks[t][i].ts = true
+					}
+				}
+			}
+		}
+		c1, c2 = c03Case{groups: g1, nticks: n1}, c03Case{groups: g2, nticks: n2}
+	} else {
+		ts := r.Chance(85)
+		o1 := &c03Opt{ng: r.Pick(2, 2, 2, 3, 3, 4, 1), tsMode: ts, tickTs: ts, base: uint32(r.Pick(0, 100, 65535, 1<<20)) + uint32(r.Intn(50))}
+		c1 = c03GenOne(r, tier, o1)
+		if r.Chance(75) && c1.nticks > 1 {
+			c1.nticks = r.Range(1, c1.nticks-1) // stopped in mid-stream: a lagging group leaves packets queued
+			for _, g := range c1.groups {
+				g.ticks = g.ticks[:c1.nticks]
+			}
+		}
+		// where run 1's numbers end
+		top := o1.base + 10
+		for _, g := range c1.groups {
+			for _, p := range g.sample {
+				if p.sn > top {
+					top = p.sn
+				}
+			}
+			top += 60
+		}
+		layout := make([][2]int, 0, len(c1.groups)+1)
+		for _, g := range c1.groups {
+			layout = append(layout, [2]int{g.first, g.nchan})
+		}
+		nextFirst := layout[len(layout)-1][0] + layout[len(layout)-1][1] + r.Intn(2)
+		switch c := r.Intn(100); {
+		case c < 60: // the same groups again
+		case c < 72: // one group is gone
+			if len(layout) > 1 {
+				d := r.Intn(len(layout))
+				layout = append(layout[:d], layout[d+1:]...)
+			}
+		case c < 84: // a new group appears
+			layout = append(layout, [2]int{nextFirst, r.Range(1, 4)})
+		case c < 92: // the last group comes back with another channel count
+			layout[len(layout)-1][1] = layout[len(layout)-1][1]%8 + 1
+		default: // entirely different groups
+			layout = nil
+		}
+		ts2 := ts
+		if r.Chance(10) {
+			ts2 = !ts
+		}
+		c2 = c03GenOne(r, tier, &c03Opt{layout: layout, tsMode: ts2, tickTs: ts2, base: top})
+	}
+	in1, _ := c03Emit(c1)
+	in2, _ := c03Emit(c2)
+	run := func() string {
+		src, err := dastard.NewVerifC03Source()
+		if err != nil {
+			return "ERR " + strings.ReplaceAll(err.Error(), " ", "_")
+		}
+		out1 := c03RunOn(src, c1)
+		if strings.HasPrefix(out1, "ERR") {
+			return out1
+		}
+		out2 := c03RunOn(src, c2)
+		return fmt.Sprintf("%s RUN2 nchan %d %s", out1, src.Nchan(), out2)
+	}
+	return "restart " + in1 + " RUN2 " + in2, run
 }
 
 // c03Emit renders the input part of the line and returns the runner.
-func c03Emit(groups []*c03Group, nticks int, f0 int64, perGroup bool, mergeSeed uint64, viaStartRun bool) (string, func() string) {
+func c03Emit(c c03Case) (string, func() string) {
+	groups, nticks, f0 := c.groups, c.nticks, c.f0
 	var sb strings.Builder
 	fmt.Fprintf(&sb, "f0 %d ng %d", f0, len(groups))
 	for _, grp := range groups {
@@ -270,7 +396,13 @@ func c03Emit(groups []*c03Group, nticks int, f0 int64, perGroup bool, mergeSeed 
 			}
 		}
 	}
-	run := func() string { return c03Run(groups, nticks, perGroup, mergeSeed, viaStartRun, f0) }
+	run := func() string {
+		src, err := dastard.NewVerifC03Source()
+		if err != nil {
+			return "ERR " + strings.ReplaceAll(err.Error(), " ", "_")
+		}
+		return c03RunOn(src, c)
+	}
 	return sb.String(), run
 }
 
@@ -344,7 +476,9 @@ func c03Build(grp *c03Group, p c03Pkt, k int) *packets.Packet {
 	return pk
 }
 
-func c03Run(groups []*c03Group, nticks int, perGroup bool, mergeSeed uint64, viaStartRun bool, f0 int64) string {
+// c03RunOn does one acquisition of the case on the given source object.
+func c03RunOn(src *dastard.VerifC03Source, c c03Case) string {
+	groups, nticks, perGroup, mergeSeed, viaStartRun, f0 := c.groups, c.nticks, c.perGroup, c.mergeSeed, c.viaStartRun, c.f0
 	nprod := 1
 	if perGroup {
 		nprod = len(groups)
@@ -376,20 +510,20 @@ func c03Run(groups []*c03Group, nticks int, perGroup bool, mergeSeed uint64, via
 	}
 	if perGroup {
 		for g, grp := range groups {
-			for k, p := range grp.sample {
-				sample[g] = append(sample[g], c03Build(grp, p, k))
+			for _, p := range grp.sample {
+				sample[g] = append(sample[g], c03Build(grp, p, int(p.sn-grp.sample[0].sn)))
 			}
 			for t := 0; t < nticks; t++ {
 				for _, p := range grp.ticks[t] {
-					ticks[g][t] = append(ticks[g][t], c03Build(grp, p, 0))
+					ticks[g][t] = append(ticks[g][t], c03Build(grp, p, int(p.sn-grp.sample[0].sn)))
 				}
 			}
 		}
 	} else {
 		ls := make([][]*packets.Packet, len(groups))
 		for g, grp := range groups {
-			for k, p := range grp.sample {
-				ls[g] = append(ls[g], c03Build(grp, p, k))
+			for _, p := range grp.sample {
+				ls[g] = append(ls[g], c03Build(grp, p, int(p.sn-grp.sample[0].sn)))
 			}
 		}
 		sample[0] = merge(ls)
@@ -397,13 +531,13 @@ func c03Run(groups []*c03Group, nticks int, perGroup bool, mergeSeed uint64, via
 			ls := make([][]*packets.Packet, len(groups))
 			for g, grp := range groups {
 				for _, p := range grp.ticks[t] {
-					ls[g] = append(ls[g], c03Build(grp, p, 0))
+					ls[g] = append(ls[g], c03Build(grp, p, int(p.sn-grp.sample[0].sn)))
 				}
 			}
 			ticks[0][t] = merge(ls)
 		}
 	}
-	blocks, err := dastard.VerifC03Run(sample, ticks, 500*time.Microsecond, viaStartRun, f0)
+	blocks, err := src.Run(sample, ticks, 500*time.Microsecond, viaStartRun, f0)
 	if err != nil {
 		return "ERR " + strings.ReplaceAll(err.Error(), " ", "_")
 	}
